@@ -48,7 +48,9 @@ pub fn budget_for(scn: &Scenario, r: &Ref) -> u64 {
     let threads = scn.final_nt().map(|n| if n == 0 { scn.avail } else { n }).unwrap_or(scn.avail).max(1) as u64;
     let w = r.work + r.calls.len() as u64 + r.finals.len() as u64 * 4 + scn.vals.len() as u64 * 2;
     // generous: a correct run over a finite source needs about 2 * w + 8 * threads steps, whatever the schedule
-    let base = 20_000 + 40 * w + 400 * threads;
+    // (a thread that waits for the source's handle yields once per step of the others: up to a factor of the
+    // thread count on top)
+    let base = 20_000 + 40 * w * (1 + threads / 8) + 400 * threads;
     if scn.src == Src::IterEndless {
         // on an unbounded source the other threads keep pulling while the thread that holds the match waits
         // for its turn: the total depends on the share of steps the policy gives to that thread
